@@ -201,6 +201,12 @@ def build_filesinfo(files, opts):
     if any(a is not None for a in attrs):
         props.append(sized("attributes", 0x15, raw("defined", enc_defined([a is not None for a in attrs], sc)),
                            byte("external", 0), *[N("u32", "attr", a) for a in attrs if a is not None]))
+    sp = opts.get("startpos")
+    if sp and n:
+        # kStartPos: obsolete but part of the grammar (same shape as the time properties)
+        vals = [(i * 7 + 1) if (sp == "all" or i % 2 == 0) else None for i in range(n)]
+        props.append(sized("startpos", 0x18, raw("defined", enc_defined([v is not None for v in vals], sc)), byte("external", 0),
+                           *[N("u64", "startpos", v) for v in vals if v is not None]))
     props = [p for p in props if p is not None]
     order = opts.get("prop_order")
     if order:
@@ -248,6 +254,13 @@ def encode_folders(files, folders, password):
 
 def build_header_tree(files, folders_enc, opts):
     parts = [byte("id:header", 0x01)]
+    ap = opts.get("archive_props")
+    if ap:
+        # ArchiveProperties: (type, size, data)* kEnd - no known writer emits any, every reader has to skip them
+        recs = []
+        for i in range(int(ap)):
+            recs += [byte("aptype", 0x19 + i), num("apsize", 3 + i), raw("apdata", bytes([0xC0 + i]) * (3 + i))]
+        parts.append(sec("archiveprops", byte("id:archiveprops", 0x02), *recs, byte("end", 0)))
     if folders_enc:
         parts.append(build_streams(folders_enc, opts.get("packpos", 0), opts.get("pack_crc", False),
                                    opts.get("defined_shortcut", True), opts.get("numunpack", "auto"),
